@@ -419,10 +419,13 @@ class ActionLink(Action):
             graph = DirectedGraph()
 
             # Add instantiation links as edges
+            nested_edges = set()
             for action in actions:
                 target = re.sub(r"\.init_args$", "", split_key_leaf(action.target[0])[0])
                 for _, source_action in action.source:
                     graph.add_edge(source_action.dest, target)
+                    if is_nested_instantiation_link(action):
+                        nested_edges.add((source_action.dest, target))
                 targets.add(target)
 
             # Add instantiation target prefixes as edges
@@ -431,7 +434,7 @@ class ActionLink(Action):
                 parts = [x.replace("|", ".") for x in target.replace("init_args.", "init_args|").split(".")]
                 for num in range(len(parts) - 1):
                     target_prefix = ".".join(parts[: num + 1])
-                    if target_prefix in nodes and not graph.has_edge(target_prefix, target):
+                    if target_prefix in nodes and (target_prefix, target) not in nested_edges:
                         graph.add_edge(target, target_prefix)
 
             # A source nested in another component can only be read while that component is not yet instantiated
